@@ -18,7 +18,7 @@ Overrides ==
     \ { o \in [dflt : {"error", "off"}, byId : { [x \in {"r1"} |-> "off"], [x \in {"r2"} |-> "error"] }, filter : { {"*"}, {"r1"}, {"r9"} }] :
           \E id \in DOMAIN o.byId : o.byId[id] = o.dflt }
 
-Init == \E a \in RuleSpace("r1"), b \in { x \in RuleSpace("r2") : Full \/ (x.files = {} /\ x.ignores = {}) }, o \in Overrides, g \in {"none", "extra", "override"} :
+Init == \E a \in RuleSpace("r1"), b \in { x \in RuleSpace("r2") : Full \/ (x.files = {} /\ x.ignores = {}) }, o \in Overrides, g \in {"none", "extra", "override", "narrow"} :
            cfg = [rules |-> <<a, b>>, ov |-> o, lglob |-> g]
 Next == UNCHANGED cfg
 Spec == Init /\ [][Next]_cfg
